@@ -208,10 +208,12 @@ type C08E2E struct {
 	HdrKey    string `json:"hdr_key"`    // header: key spelling
 	HdrVal    string `json:"hdr_val"`    // header: raw value
 	Ser       bool   `json:"ser"`
+	Stats     bool   `json:"stats,omitempty"`     // do-nothing stats handlers on both sides
+	Intercept bool   `json:"intercept,omitempty"` // pass-through interceptors on both sides
 }
 
 func genC08E2E(t *rapid.T) C08E2E {
-	c := C08E2E{Kind: rapid.SampledFrom(allKinds).Draw(t, "kind"), Ser: rapid.Bool().Draw(t, "ser")}
+	c := C08E2E{Kind: rapid.SampledFrom(allKinds).Draw(t, "kind"), Ser: rapid.Bool().Draw(t, "ser"), Stats: rapid.IntRange(0, 3).Draw(t, "stats") == 0, Intercept: rapid.IntRange(0, 2).Draw(t, "intercept") == 0}
 	c.Mode = rapid.SampledFrom([]string{"api", "api", "header"}).Draw(t, "mode")
 	if c.Mode == "api" {
 		switch rapid.IntRange(0, 5).Draw(t, "tclass") {
@@ -269,7 +271,7 @@ func execC08E2E(t *testing.T, c C08E2E) (v Verdict) {
 		}
 		svc.Unary("u", func(ctx context.Context, req []byte) ([]byte, error) { record(ctx); return req, nil })
 		svc.Stream("s", true, true, func(s grpcServerStream) error { record(s.Context()); return nil })
-		w := kit.NewWorld(kit.Topo{Kind: "direct", Serialize: c.Ser, Clients: 1}, svc, nil, nil)
+		w := kit.NewWorld(kit.Topo{Kind: "direct", Serialize: c.Ser, Clients: 1, Stats: c.Stats, Intercept: c.Intercept}, svc, nil, nil)
 		l := w.Links[0]
 		l.A.IgnoreWriteCtx = true // a transport may accept a write whose context has just ended
 		if c.TransitMs > 0 {
@@ -395,7 +397,7 @@ func execC08E2E(t *testing.T, c C08E2E) (v Verdict) {
 			}
 		}
 	}
-	v.Info = kit.CaseInfo{Labels: []string{"e2e." + label, "kind=" + kit.KindNames[c.Kind]}, NonTrivial: nt, Key: fmt.Sprintf("%+v", c), Sample: c}
+	v.Info = kit.CaseInfo{Labels: []string{"e2e." + label, "kind=" + kit.KindNames[c.Kind], fmt.Sprintf("e2e.intercept=%v", c.Intercept)}, NonTrivial: nt, Key: fmt.Sprintf("%+v", c), Sample: c}
 	return
 }
 
